@@ -340,8 +340,10 @@ pub fn run_one(sc: &Scenario, schedule: &[String]) -> bool {
                     aborted = true;
                     break;
                 }
-                match s.wait_settled(tid, PROBE_WINDOW) {
-                    None => println!("P {} blocked", tid),
+                let long = w.get(2) == Some(&"blocked-long");
+                let window = if long { Duration::from_millis(1300) } else { PROBE_WINDOW };
+                match s.wait_settled(tid, window) {
+                    None => println!("P {} {}", tid, if long { "blocked-long" } else { "blocked" }),
                     Some(label) => {
                         println!("P {} arrived {} |{}", tid, label, events_of(&ctx, &mut cur, tid));
                         aborted = true;
